@@ -361,6 +361,19 @@ pub fn run(ctx: &mut Ctx) {
     // fetched (whole data by "", null, [] or no operand; a named field; the current element of an outer
     // iteration) - holds values, and operation-shaped values among them are not evaluated
     if ctx.mine() {
+        // a data value that IS an operation-shaped object where a collection is expected: an object is not a
+        // collection (error); it is never evaluated to obtain one
+        for m in [json!({"var": "other"}), json!({"merge": [["x"], ["y"]]}), json!({"cat": ["x", "y"]}), json!({"if": [true, ["x"]]}), json!({"filter": [["x"], true]})] {
+            let d = json!({"tags": m, "other": ["x"], "rows": [{"tags": m}]});
+            for k in ["all", "some", "none", "map", "filter"] {
+                ctx.edge();
+                ctx.check("data-collection:operation-shaped-object", &op(k, vec![json!({"var": "tags"}), json!({"===": [{"var": ""}, "x"]})]), &d);
+                ctx.check("data-collection:operation-shaped-object:nested", &json!({"map": [{"var": "rows"}, op(k, vec![json!({"var": "tags"}), json!(true)])]}), &d);
+            }
+            ctx.check("data-collection:operation-shaped-object:reduce", &json!({"reduce": [{"var": "tags"}, {"var": "current"}, 0]}), &d);
+            ctx.check("data-collection:operation-shaped-object:in", &json!({"in": ["x", {"var": "tags"}]}), &d);
+            ctx.check("data-collection:operation-shaped-object:merge", &json!({"merge": [{"var": "tags"}]}), &d);
+        }
         let whole = [json!({"var": ""}), json!({"var": null}), json!({"var": []}), json!({"var": [""]}), json!({"var": [null, "dflt"]})];
         let datas = [json!([{"var": "a"}]), json!([{"+": ["x"]}, 1]), json!([{"log": "LEAK"}]), json!([[{"var": "a"}], {"cat": ["x", "y"]}, "xy"])];
         let preds = [json!({"!==": [{"var": ""}, null]}), json!({"===": [{"var": ""}, "xy"]}), json!(true), json!({"var": "var"})];
